@@ -320,7 +320,7 @@ PROPS = {
                      "Grol.E.C01.evalI_builtin", "Grol.E.C01.evalI_arr", "Grol.E.C01.evalI_mapLit", "Grol.E.C01.evalI_idx",
                      "Grol.E.C01.evalI_comment", "Grol.E.C01.evalI_nil_node", "Grol.E.C01.evalI_macroLit",
                      "Grol.E.C01.evalI_func_named", "Grol.E.C01.evalI_no_fuel", "Grol.E.C01.exprs_continue",
-                     "Grol.E.C01.exprs_error"],
+                     "Grol.E.C01.exprs_error", "Grol.E.C01.forInteger_named_unroll", "Grol.E.C01.for_named_is_counting"],
         "suites": [["eval", "C01"]],
         "rule": EVAL_RULE + " C01 statement: the default configuration's output/value/error flag per input equal the reference (model without cache).",
         "trusted_base": EVAL_TB,
